@@ -6,6 +6,7 @@ use std::io::{BufRead, Write};
 use std::panic::{catch_unwind, AssertUnwindSafe};
 
 mod ops;
+mod zenc;
 
 pub fn hex(s: &str) -> String {
     let mut o = String::with_capacity(1 + 2 * s.len());
